@@ -19,6 +19,8 @@ operator. For electronic system, it means to couple all the electrons by pair.
 
 import itertools
 
+import numpy as np
+
 from tangelo.toolboxes.operators import BosonOperator, QubitOperator
 
 
@@ -38,22 +40,38 @@ def hard_core_boson_operator(ferm_op):
         BosonOperator: Self-explanatory.
     """
 
-    # Getting the molecular integrals.
-    cte, e_sei, e_tei = ferm_op.get_coeffs(spatial=True)
-    e_tei *= 2
+    # Coefficients in the spin-orbital basis (alternating spin ordering), for the
+    # normal ordered operator: h[p, q] a^+_p a_q and g[p, q, r, s] a^+_p a^+_q a_r a_s.
+    # No spin symmetry of the coefficients is assumed (e.g. Sz or S^2 operators).
+    cte, h, g = ferm_op.get_coeffs(spatial=False)
+    n_mos = (h.shape[0] + 1) // 2
+    if h.shape[0] != 2*n_mos:
+        h = np.pad(h, (0, 1))
+        g = np.pad(g, (0, 1))
+
+    def pair_number(i):
+        """Coefficient of b^+_i b_i: all operators act on the two spin-orbitals of orbital i."""
+        a, b = 2*i, 2*i + 1
+        return h[a, a] + h[b, b] + g[a, b, b, a] - g[a, b, a, b] + g[b, a, a, b] - g[b, a, b, a]
+
+    def pair_hopping(i, j):
+        """Coefficient of b^+_i b_j, with b^+_i = a^+_{i,up} a^+_{i,down} and b_j = a_{j,down} a_{j,up}."""
+        ia, ib, ja, jb = 2*i, 2*i + 1, 2*j, 2*j + 1
+        return g[ia, ib, jb, ja] - g[ib, ia, jb, ja] - g[ia, ib, ja, jb] + g[ib, ia, ja, jb]
+
+    def pair_repulsion(i, j):
+        """Coefficient of b^+_i b_i b^+_j b_j: density-density and exchange terms between the two pairs."""
+        return sum(g[r, s, s, r] - g[r, s, r, s] + g[s, r, r, s] - g[s, r, s, r]
+                   for r, s in itertools.product((2*i, 2*i + 1), (2*j, 2*j + 1)))
 
     boson_op = BosonOperator((), cte)
-    n_mos = e_sei.shape[0]
     for i, j in itertools.product(range(n_mos), repeat=2):
         if i == j:
-            coeff = 2*e_sei[i, i] + e_tei[i, i, i, i]
-            boson_op += BosonOperator(f"{i}^ {i}", coeff)
+            boson_op += BosonOperator(f"{i}^ {i}", pair_number(i))
         else:
-            r1_coeff = e_tei[i, i, j, j]
-            boson_op += BosonOperator(f"{i}^ {j}", r1_coeff)
-
-            r2_coeff = 2*e_tei[i, j, j, i] - e_tei[i, j, i, j]
-            boson_op += BosonOperator(f"{i}^ {i} {j}^ {j}", r2_coeff)
+            boson_op += BosonOperator(f"{i}^ {j}", pair_hopping(i, j))
+            if i < j:
+                boson_op += BosonOperator(f"{i}^ {i} {j}^ {j}", pair_repulsion(i, j))
 
     return boson_op
 
